@@ -71,12 +71,19 @@ pub fn scenario(rec: &mut Rec, ctx: &Ctx, idx: u64, rng: &mut rand_chacha::ChaCh
   if force_small {
     sc.t = rng.gen_range(1..=3);
   }
+  // two scenarios of every run sit just beyond the 8-bit threshold boundary
+  let large = idx == 1 || idx == 2;
+  if large {
+    sc.t = 255 + idx as u32;
+    sc.src = RandSrc::Local;
+  }
   let t = sc.t as usize;
   let extra = if force_small {
     rng.gen_range(0..=(exhaustive_cap - t).min(t + 1))
   } else {
     rng.gen_range(0..=t.min(10))
   };
+  let extra = if large { 2 } else { extra };
   let n = t + extra;
   let auxes: Vec<Option<Vec<u8>>> =
     (0..n).map(|_| aux(rng, sc.measurement.len(), thorough)).collect();
@@ -184,6 +191,9 @@ pub fn scenario(rec: &mut Rec, ctx: &Ctx, idx: u64, rng: &mut rand_chacha::ChaCh
   };
 
   for pat in SEL_PATTERNS.iter() {
+    if large && !matches!(pat, SelPattern::Permuted | SelPattern::ExactlyT | SelPattern::DupsFront) {
+      continue;
+    }
     let sel = selection(rng, n, t, *pat);
     try_sel(rec, &sel, &format!("{:?}", pat));
     rec.case(&(
